@@ -27,11 +27,23 @@ def analyse(lines):
     pending_drop = []
     trying, fails = {}, []
     api_hold = {}
+    cur_attempt, held_outer, open_hold, refusals = {}, [], {}, []
     for ts, who, role, rest in evs:
         pid = who.split(".")[0]
         is_worker = who.endswith("raft_log_wal_flush_worker")
         c = ids.setdefault(who, len(ids)) if not is_worker else None
         if role == "h":
+            # API-level intervals: [attempt, got] acquiring, [got, dropping] surely held, [dropping, dropped] releasing
+            if rest[0] == "attempt":
+                cur_attempt[who] = ts
+            elif rest[0] == "got":
+                held_outer.append([who, cur_attempt.get(who, ts), None])
+                open_hold[who] = held_outer[-1]
+            elif rest[0] == "dropped":
+                if who in open_hold:
+                    open_hold.pop(who)[2] = ts
+            elif rest[0] == "refused":
+                refusals.append((who, cur_attempt.get(who, ts), ts))
             if rest[0] == "attempt":
                 stats["attempts"] += 1
                 in_attempt[who] = True
@@ -111,6 +123,11 @@ def analyse(lines):
                 toks.append("x%d" % c)
     for pc in pending_drop:
         toks.append("d%d" % pc)
+    # a refused attempt needs somebody else who may have had the directory at some moment of the
+    # attempt (from the start of that owner's own attempt to the return of its drop)
+    for (who, a, r) in refusals:
+        if not any(w != who and lo <= r and (hi is None or hi >= a) for (w, lo, hi) in held_outer):
+            problems.append("%s was refused the directory although nobody else had it open at any time during the attempt" % who)
     # second pass: order every failed attempt at the first point of its interval at which
     # somebody holds the lock; the interval is extended to just after the next logged success
     def holder_after(n):
